@@ -20,7 +20,8 @@ Operands == <<
   Arr(<<>>), Arr(<<IntV(1), IntV(2)>>), Arr(<<Null>>), Hash(<< <<S2B("k"), IntV(1)>> >>), Hash(<<>>),
   Go("slice:int:1,2"), Go("map:is:1=a"), Go("struct:person"), Go("ptr:struct:person"), Go("nilptr:person"), Go("nilptr:slice"),
   Go("stringer:abc"), Go("num:int8:192"), Go("big:uint64:max"), Go("decimal:96"), Go("safe:1:str:abc"), Go("func"), Go("chan"),
-  Go("ptr:slice:int:1"), Go("slice:int:"), Go("map:ss:"), Go("nilptr:vstringer"), Go("map:nilss")
+  Go("ptr:slice:int:1"), Go("slice:int:"), Go("map:ss:"), Go("nilptr:vstringer"), Go("map:nilss"),
+  Go("struct:embnil"), Go("struct:funcs"), Go("map:vs:a=b")
 >>
 NO == Len(Operands)
 IsPure(v) == v.t # "go"
@@ -35,6 +36,7 @@ Others == <<
   <<PrintS(AttrBr(A, B))>>, <<PrintS(AttrDot(A, "k"))>>, <<PrintS(AttrDot(A, "Name"))>>, <<PrintS(AttrDot(A, "0"))>>,
   <<PrintS(AttrCall(A, "Greet", <<B>>))>>, <<PrintS(AttrCall(A, "Greet", <<>>))>>, <<PrintS(AttrCall(A, "Sum", <<B, B>>))>>,
   <<PrintS(AttrCall(A, "Nothing", <<B>>))>>, <<PrintS(AttrCall(A, "String", <<>>))>>,
+  <<PrintS(AttrDot(A, "Code")), PrintS(AttrDot(A, "N")), PrintS(AttrCall(A, "G", <<B>>)), PrintS(AttrDot(A, "F"))>>,
   <<PrintS(CallE("id", <<A, B>>))>>, <<PrintS(Pipe(A, "up", <<B>>))>>, <<PrintS(Pipe(A, "wrap", <<B>>))>>,
   <<ForS("", "v", A, NoE, <<PrintS(NameE("v"))>>, <<Text("E")>>, TRUE)>>,
   <<ForS("k", "v", A, B, <<PrintS(NameE("k")), PrintS(AttrDot(NameE("loop"), "index"))>>, <<>>, FALSE)>>,
